@@ -2,20 +2,28 @@
 // Text that replaced a fragment marker is verbatim source of /repo/src/codegen/mod.rs.
 #![allow(dead_code, unused_imports, unused_variables, unused_mut)]
 
-/// event log written by the shims
+/// event counters written by the shims
 pub mod log {
     pub const CONST_DROP_FN: u8 = 1;
     pub const RUNTIME_CONST: u8 = 2;
     pub const REGISTERED_FN: u8 = 3;
     pub const FREE_MEMORY: u8 = 4;
-    pub static mut LOG: [u8; 16] = [0; 16];
-    pub static mut N: usize = 0;
+    /// how often each event happened
+    pub static mut COUNT: [u8; 5] = [0; 5];
+    /// number of script-constant drops that had happened when the machine code was freed (first time)
+    pub static mut CONST_DROPS_AT_FREE: u8 = 0;
     pub fn event(e: u8) {
         unsafe {
-            if N < 16 {
-                LOG[N] = e;
+            if e == FREE_MEMORY && COUNT[FREE_MEMORY as usize] == 0 {
+                CONST_DROPS_AT_FREE = COUNT[CONST_DROP_FN as usize];
             }
-            N += 1;
+            COUNT[e as usize] += 1;
+        }
+    }
+    pub fn reset() {
+        unsafe {
+            COUNT = [0; 5];
+            CONST_DROPS_AT_FREE = 0;
         }
     }
 }
@@ -40,9 +48,9 @@ pub mod shim {
             event(REGISTERED_FN);
         }
     }
-    /// owns its values; stands in for HashMap<ResolvedName, V>
+    /// owns its values (at most two, inline); stands in for HashMap<ResolvedName, V>
     pub struct HashMap<K, V> {
-        pub vals: Vec<V>,
+        pub vals: [Option<V>; 2],
         pub _k: core::marker::PhantomData<K>,
     }
     #[derive(Clone, Copy)]
